@@ -3,9 +3,9 @@
 
 def nontrivial(req, obs):
     f = req.split()
-    if f[0] in ("pq", "pqf"):
+    if f[0] in ("pq", "pqf", "pqc"):
         # the handler failed (the middleware had something to decide)
-        return len(f) == 15 and f[13] != "nil"
+        return len(f) in (15, 16) and f[13] != "nil"
     if f[0] == "pq2":
         return len(f) == 31 and (f[15] != "nil" or f[29] != "nil")
     return False
@@ -20,6 +20,7 @@ PROP = {
         "Wm.Poison.poison_decision", "Wm.Poison.poison_once_same_identity", "Wm.Poison.pass_through",
         "Wm.Poison.outs_unchanged", "Wm.Poison.acked_implies_handled_or_poisoned",
         "Wm.Poison.nacked_when_poison_publish_fails", "Wm.Poison.nacked_when_filtered_out",
+        "Wm.Poison.nacked_when_poison_publisher_panics",
         "Wm.Poison.acked_when_poisoned", "Wm.Poison.poison_before_settle",
         "Wm.Poison.stamp_overwrites", "Wm.Poison.stamp_nodup",
         "Wm.Poison.stream_eq_map", "Wm.Poison.stream_publishes_once_each",
@@ -40,6 +41,7 @@ PROP = {
             "message on or at random, the Router's own publisher failing in a quarter of the cases; in three of the seven filter families the handler consumes the poison topic itself (subscribe topic == poison topic); settlement read from Acked()/Nacked(), "
             "the returned (events, err) read by an observer middleware outside the poison middleware. "
             "long error texts (1000 .. 70000 bytes, lengths around 1 KiB / 4 KiB / 64 KiB, plain, %w-wrapped and as multierror parts, the distinguishing part at the END of the text as in a wrapped chain) stand-alone through five filter families and inside a Router: the reason metadata must be the whole err.Error(). " 
+            "pqc (application context): the message context holds application values under plain STRING keys - among them 'handler_name', 'subscribe_topic', 'subscriber_name', the strings behind the Router's typed keys - carried in with the message or set by the handler before it fails, stand-alone and inside a Router: the poison metadata must name the Router's topic/handler/subscriber, not those values. panicking poison publisher (pubout panic:<value>), stand-alone and inside a Router (router-level and handler-level middleware): success must not be reported, the Router Nacks. " 
             "pqf (stateful filters): PoisonQueueWithFilter with a filter scripted as a sequence of answers (budgets 1100.., alternating, "
             "single answers) - 13 answer scripts x {ok, errors.New, sentinel, multierror} x publisher ok/fail stand-alone, and 12 (quick) "
             "streams of 8 messages through one middleware value stand-alone and inside a Router; the number of consultations per message "
@@ -67,7 +69,8 @@ PROP = {
         "(scripted answer sequences; theorems stateful_*, budget_filter_stream); a filter that inspects or mutates the message is outside the model",
         "the message has a non-nil Metadata map (message.NewMessage always makes one); a nil map makes the middleware panic in Metadata.Set",
         "stand-alone calls carry no Router context values (the keys are unexported), so non-empty topic/handler/subscriber names are exercised in mode rt only",
-        "a poison publisher that panics or blocks is outside the model (outcomes: accept, error)",
+        "a poison publisher that blocks forever is outside the model (outcomes: accept, error, panic - a panic leaves the middleware and is "
+        "recovered by the Router, which Nacks)",
     ],
     "explanation": "Theorems quantify over all filters, publisher outcomes, contexts, messages and handler results (and, by induction, over all "
                    "message streams with failures at any positions); the tie theorem is re-proved against the bodies of Middleware's deferred "
